@@ -20,7 +20,7 @@ META = {
               "systematic two-file family (quick: seeded 70 of 225), hand-written layouts for locals/includes/extern-all/duplicates; values: all "
               "integers with |v| < 2^16; base even",
     "outside": ["include depth 3", "more than three files", "symbol names differing only in case beyond the listed pairs"],
-    "structure": "systematic family (def form x use position)^2 + 30 hand-written layouts",
+    "structure": "systematic family (def form x use position)^2 + 30 hand-written layouts + 4x4 matrix of export forms clashing across files",
     "stubs": ["included files are real files under /verif/build/aux/c11"],
 }
 
